@@ -5,8 +5,11 @@
 (*   usleep(d) = 0  only for a finite d and only after d elapsed on the runtime clock (dt >= d);                       *)
 (*   usleep = -1/e  only if an interrupt with reason e was issued to this thread, is consumed by no other sleep, and    *)
 (*                  was not already complete before this sleep was invoked (never delivered to a later sleep);         *)
-(*   order: two sleeps on one vCPU that both run to their deadline wake in deadline order when the later-deadline one  *)
-(*          was invoked after the earlier-deadline one (the earlier deadline cannot be passed over in an expiry pass); *)
+(*   no later than the first scheduling round after the deadline: if sleep A (same vCPU, invoked after sleep B, later   *)
+(*          deadline than B) ran to its deadline, and the same thread then completed ANOTHER full sleep to its deadline *)
+(*          (so a second expiry pass took place), B -- whose deadline had passed at the first of these passes -- must   *)
+(*          not still be asleep and then report a normal expiry: it was passed over in an expiry pass.  (The order in   *)
+(*          which threads woken by the same pass get to run is not constrained.)                                       *)
 (*   Quiesce: no thread is left in any sleep queue; a Hang (a finite sleeper that never woke) has no action.           *)
 (* KF_F2 (environment KF_F2=1) additionally accepts the recorded defect F2, and only it: a reason left by an interrupt *)
 (* that had completed before the sleep was invoked AND whose target was READY (state 0) when thread_interrupt() looked  *)
@@ -15,7 +18,7 @@ EXTENDS Naturals, Integers, Sequences, FiniteSets, TLC, Json, IOUtils
 Tr == ndJsonDeserialize(IOEnv.TRACE)
 KF_F2 == "KF_F2" \in DOMAIN IOEnv /\ IOEnv.KF_F2 = "1"
 T == (1..16) \cup {91}
-NoOp == [op |-> "none", us |-> 0, exp |-> 0, v |-> 0, pos |-> 0, over |-> FALSE, e |-> 0, target |-> 0]
+NoOp == [op |-> "none", us |-> 0, exp |-> 0, v |-> 0, pos |-> 0, over |-> FALSE, ov1 |-> {}, e |-> 0, target |-> 0]
 VARIABLES l, pend, intrs
 vars == <<l, pend, intrs>>
 Init == l = 1 /\ pend = [t \in T |-> NoOp] /\ intrs = {} /\ TLCSet(1, 0)
@@ -45,7 +48,9 @@ Resp == /\ Ev("Resp")
                      IF R.r = 0
                      THEN /\ p.us >= 0 /\ R.dt >= p.us /\ ~p.over
                           /\ pend' = [b \in T |-> IF b = t THEN NoOp
-                                                  ELSE IF Overtakes(t, b) THEN [pend[b] EXCEPT !.over = TRUE] ELSE pend[b]]
+                                                  ELSE IF pend[b].op = "usleep" /\ t \in pend[b].ov1 /\ p.us > 0 /\ p.pos > pend[b].pos
+                                                       THEN [pend[b] EXCEPT !.over = TRUE]        \* second full sleep of an overtaker
+                                                  ELSE IF Overtakes(t, b) THEN [pend[b] EXCEPT !.ov1 = @ \cup {t}] ELSE pend[b]]
                           /\ UNCHANGED intrs
                      ELSE /\ \E i \in intrs : /\ Deliverable(i, t, R.en)
                                               /\ intrs' = (intrs \ {i}) \cup {[i EXCEPT !.used = TRUE]}
